@@ -25,7 +25,14 @@ pub enum Call {
     Stream(Vec<(Ty, vmodel::Val)>),
     Graph(crate::props::graphs::Graph),
     /// a compressed block of `len` bytes (period `period`) written at `level`, then read back
-    Zip { len: usize, period: u8, level: u32 },
+    Zip {
+        len: usize,
+        period: u8,
+        level: u32,
+        /// what happens to the frame before it is read back: 0 nothing, 1 cut short, 2 a payload byte changed
+        #[serde(default)]
+        damage: u8,
+    },
 }
 
 const POOL: usize = 200;
@@ -109,8 +116,8 @@ pub fn pool(seed: u64) -> Vec<Call> {
             Call::Dec { ty: tr.clone(), bytes }
         })
     });
-    let zip = (prop_oneof![Just(0usize), 1usize..40, 200usize..3000, Just(40_000usize)], 1u8..200, 0u32..10).prop_map(|(len, period, level)| Call::Zip { len, period, level });
-    let strat = prop_oneof![4 => enc, 4 => dec, 2 => stream, 1 => graph, 6 => fam, 2 => zip];
+    let zip = (prop_oneof![Just(0usize), 1usize..40, 200usize..3000, Just(40_000usize)], 1u8..200, 0u32..10, prop_oneof![2 => Just(0u8), 1 => Just(1u8), 1 => Just(2u8)]).prop_map(|(len, period, level, damage)| Call::Zip { len, period, level, damage });
+    let strat = prop_oneof![4 => enc, 4 => dec, 2 => stream, 1 => graph, 6 => fam, 3 => zip];
     let mut r = runner(tag_seed(derive_seed(seed, "C18-pool", 0, 0), 0));
     (0..POOL).map(|_| strat.new_tree(&mut r).expect("pool").current()).collect()
 }
@@ -158,14 +165,21 @@ pub fn execute(c: &Call) -> String {
                 Err(e) => format!("stream-err {}", e.kind),
             }
         }
-        Call::Zip { len, period, level } => {
+        Call::Zip { len, period, level, damage } => {
             use desert::{BinaryInput, BinaryOutput};
             let d: Vec<u8> = (0..*len).map(|i| (i % *period as usize) as u8 ^ (i / 251) as u8).collect();
             let mut out = Vec::new();
             match out.write_compressed(&d, flate2::Compression::new(*level)) {
                 Ok(()) => {
+                    let digest = fnv64(&out);
+                    let n = out.len();
+                    match damage {
+                        1 => out.truncate(n - n / 3 - 1),
+                        2 => out[n - 1 - n / 4] ^= 0x5a,
+                        _ => {}
+                    }
                     let back = desert::SliceInput::new(&out).read_compressed();
-                    format!("zip {:016x} len={} back={}", fnv64(&out), out.len(), matches!(back, Ok(b) if b == d))
+                    format!("zip {digest:016x} len={n} damage={damage} back={}", match back { Ok(b) if b == d => "same".to_string(), Ok(b) => format!("other({} bytes, {:016x})", b.len(), fnv64(&b)), Err(e) => format!("err {}", vcat::errinfo(&e).kind) })
                 }
                 Err(e) => format!("zip-err {}", vcat::errinfo(&e).kind),
             }
@@ -473,7 +487,7 @@ fn call_brief(c: &Call) -> String {
         Call::Dec { ty, bytes } => format!("decode {} from {}", ty.render(), vmodel::hex(&bytes[..bytes.len().min(24)])),
         Call::Stream(items) => format!("stream of {} values", items.len()),
         Call::Graph(g) => format!("graph of {} nodes", g.labels.len()),
-        Call::Zip { len, period, level } => format!("compressed block of {len} bytes (period {period}) at level {level}"),
+        Call::Zip { len, period, level, damage } => format!("compressed block of {len} bytes (period {period}) at level {level}, damage {damage}"),
     }
 }
 
